@@ -765,3 +765,54 @@ def rule_image_record_fill_flag(ctx):
                 ctx.violated("FILLFLAG", key, f.where(line), "%s builds the record of a new-style image without setting `fill_img`: if the image has no data yet, its first partial write is not filled" % f.name)
     ctx.floor("FILLFLAG", 2, n, "(places that build the record of a new-style image)")
     return n
+
+
+def rule_interlace_gate_matches(ctx):
+    """ILGATE (C09, C04): a GR read or write routine converts only when the application-side interlace is not pixel interlace, and
+    tests that first: `if (X != MFGR_INTERLACE_PIXEL) { .. GRIil_convert(.., Y ..) .. }`.  The interlace the gate tests (X) must be
+    the very interlace the conversion inside it converts to or from (Y); a gate on another field (the image's own interlace on
+    a read, where the *requested* one matters) skips the conversion exactly when the two differ, and the caller gets pixel
+    interlaced data where another layout was asked for."""
+    from .codec import ast_walk
+    from .facts import kind, strip, walk, render, calls_in, is_int, int_val
+    prog = ctx.prog
+    n = 0
+    for f in prog.lib_funcs():
+        if not f.rel.endswith("mfgr.c") or not (f.name.startswith("GRread") or f.name.startswith("GRwrite")) or not f.raw.get("ast"):
+            continue
+        found = []
+
+        def vis(nd, st):
+            exprs = [nd[1]] if nd[0] in ("s", "if") and nd[1] is not None else []
+            for e in exprs:
+                for c in calls_in(e, True):
+                    if c[1] == "GRIil_convert" and len(c[3]) >= 4:
+                        found.append((c, nd, list(st)))
+            return True
+
+        ast_walk(f.raw["ast"], vis)
+        k = 0
+        for c, nd, st in found:
+            side = [a for a in (strip(c[3][1]), strip(c[3][3])) if not is_int(a)]
+            if len(side) != 1:
+                continue
+            Y = render(side[0])
+            gates = []
+            chain = st + [nd]
+            for i, s_ in enumerate(st):
+                if s_[0] == "if" and chain[i + 1] is s_[2]:
+                    g = strip(s_[1])
+                    if kind(g) == "bin" and g[1] == "!=" and is_int(g[3]) and int_val(g[3]) == 0 and "il" in render(g[2]):
+                        gates.append(g)
+            if not gates:
+                continue
+            k += 1
+            n += 1
+            key = "ILGATE:%s#%d" % (f.name, k)
+            X = render(strip(gates[-1][2]))
+            if X == Y:
+                ctx.holds("ILGATE", key, f.where(c[5]), "the conversion to/from `%s` is gated by a test of `%s`" % (Y, X), nontrivial=True)
+            else:
+                ctx.violated("ILGATE", key, f.where(c[5]), "the conversion to/from `%s` is gated by `%s != MFGR_INTERLACE_PIXEL`: when the two interlaces differ it is skipped (or done) at the wrong time" % (Y, X))
+    ctx.floor("ILGATE", 3, n, "(gated interlace conversions in the GR read/write routines)")
+    return n
